@@ -185,23 +185,17 @@ mod proofs {
         std::mem::forget(r);
     }
 
-    /// One harness per bytes length.
-    /// Longest loop: `bit_vec::reverse_bits`, 8 iterations.
-    macro_rules! bitvec_read_total {
-        ($name:ident, $len:expr) => {
-            #[kani::proof]
-            #[kani::unwind(10)]
-            #[kani::stub(std::backtrace::Backtrace::capture, std::backtrace::Backtrace::disabled)]
-            fn $name() {
-                bitvec_read_case::<$len>();
-            }
-        };
+    /// bytes lengths 0, 1, 2 and 5 (5 bytes = 40 bits cross the u32 storage block boundary of
+    /// bit-vec) one after the other. Longest loop: `bit_vec::reverse_bits`, 8 iterations.
+    #[kani::proof]
+    #[kani::unwind(10)]
+    #[kani::stub(std::backtrace::Backtrace::capture, std::backtrace::Backtrace::disabled)]
+    fn bitvec_read_total() {
+        bitvec_read_case::<0>();
+        bitvec_read_case::<1>();
+        bitvec_read_case::<2>();
+        bitvec_read_case::<5>();
     }
-    bitvec_read_total!(bitvec_read_total_len0, 0);
-    bitvec_read_total!(bitvec_read_total_len1, 1);
-    bitvec_read_total!(bitvec_read_total_len2, 2);
-    // 5 bytes = 40 bits: crosses the u32 storage block boundary of bit-vec
-    bitvec_read_total!(bitvec_read_total_len5, 5);
 
     // ------------------------------------------------------------------ round trips (C09)
 
